@@ -191,6 +191,26 @@ def handle : Handler := fun op args impl =>
       | some (w, []) => weightsVerdict L w
       | _ => "fail:no-weights-returned"
     some ⟨resStr m, v⟩
+  | "c20wdir2", [seed, L1, L2] => do
+    -- a longer (or shorter) alignment first, in the same process and from the same stream: the weights of
+    -- the second alignment are those of `BuildWeightsDirichlet` on it alone, continuing the stream
+    let seed ← parseInt? seed
+    let L1 ← L1.toNat?
+    let L2 ← L2.toNat?
+    let m := runSeedF (FProg.bind (buildWeightsDirichlet L1 fuelC) fun _ => buildWeightsDirichlet L2 fuelC) seed
+    let v := if L1 < 3 || L2 < 3 then "na" else match parseOk (implToks impl) with
+      | some (w, []) => weightsVerdict L2 w
+      | _ => "fail:no-weights-returned"
+    some ⟨resStr m, v⟩
+  | "c20wgamma2", [seed, L1, L2] => do
+    let seed ← parseInt? seed
+    let L1 ← L1.toNat?
+    let L2 ← L2.toNat?
+    let m := runSeedF (FProg.bind (buildWeightsGamma L1 fuelC) fun _ => buildWeightsGamma L2 fuelC) seed
+    let v := if L1 < 2 || L2 < 2 then "na" else match parseOk (implToks impl) with
+      | some (w, []) => weightsVerdict L2 w
+      | _ => "fail:no-weights-returned"
+    some ⟨resStr m, v⟩
   | "c20dir", [seed, factor, alphas] => do
     let seed ← parseInt? seed
     let factor ← bitsFloat? factor
